@@ -4,6 +4,7 @@
   property means by "the bundle the segments carry".
 -/
 import DtnVerif.Lemmas.TcpclSys
+import DtnVerif.Lemmas.TcpclSysLift
 namespace DtnVerif
 namespace Tcpcl
 
@@ -97,6 +98,71 @@ theorem C01_transport (cfgA cfgB : Cfg) (sch : List SysEv)
     (runSys (initSys cfgA cfgB) sch).b.processed <+: (runSys (initSys cfgA cfgB) sch).a.emitted
     ∧ (runSys (initSys cfgA cfgB) sch).a.processed <+: (runSys (initSys cfgA cfgB) sch).b.emitted :=
   transport _ (sysInv_run sch _ (sysInv_init cfgA cfgB a1 a2 a3 b1 b2 b3) hwf hs) (hwf sch (List.prefix_refl _))
+
+/-- **C01, identities too.** The completely received transfers of B, as (transfer id, data) pairs,
+    are a prefix of A's queued bundles as (id handed out by `send`, data) pairs — and symmetrically. -/
+theorem C01_prefix_ids (cfgA cfgB : Cfg) (sch : List SysEv)
+    (a1 : 0 < cfgA.segInit) (a2 : cfgA.privExt = false) (a3 : 0 < cfgA.segMru)
+    (b1 : 0 < cfgB.segInit) (b2 : cfgB.privExt = false) (b3 : 0 < cfgB.segMru)
+    (hwf : ∀ pre, pre <+: sch → SysWF (runSys (initSys cfgA cfgB) pre))
+    (hs : ∀ ev ∈ sch, ev.sendOK) :
+    let s := runSys (initSys cfgA cfgB) sch
+    s.b.rxLog <+: s.a.sendLog.map (fun it => (it.tid, it.data))
+    ∧ s.a.rxLog <+: s.b.sendLog.map (fun it => (it.tid, it.data)) := by
+  intro s
+  have hi : SysInv s := sysInv_run sch _ (sysInv_init cfgA cfgB a1 a2 a3 b1 b2 b3) hwf hs
+  have hw : SysWF s := hwf sch (List.prefix_refl _)
+  obtain ⟨tB, tA⟩ := transport s hi hw
+  have one : ∀ (w r : Ep), EpInv w → EpInv r → r.processed <+: w.emitted →
+      r.rxLog <+: w.sendLog.map (fun it => (it.tid, it.data)) := by
+    intro w r hw' hr ht
+    have h1 : r.rxLog = deliver r.processed := hr.rx.1
+    obtain ⟨P, hP⟩ := hw'.tx
+    have hD := hP.D
+    have h2 : deliver w.emitted = (w.sendLog.take (w.nStarted - (if w.txTmp.isSome then 1 else 0))).map
+        (fun it => (it.tid, it.data)) := by
+      unfold deliver
+      simp only [Ep.txView] at hD
+      rw [hD]; rfl
+    have h3 := deliver_prefix ht
+    rw [h2, ← h1, List.map_take] at h3
+    exact List.IsPrefix.trans h3 (List.take_prefix _ _)
+  exact ⟨one s.a s.b hi.ia hi.ib tB, one s.b s.a hi.ib hi.ia tA⟩
+
+/-- **Success only after receipt.** In every reachable state of the two-endpoint system, for every
+    transfer id A has reported as `send_bundle_finished(…, 'success')`, B has completely received a
+    transfer with that id — and it is the very bundle A's user queued under that id (same octets).
+    Symmetrically for B. -/
+theorem C01_success_after_receipt (cfgA cfgB : Cfg) (sch : List SysEv)
+    (a1 : 0 < cfgA.segInit) (a2 : cfgA.privExt = false) (a3 : 0 < cfgA.segMru)
+    (b1 : 0 < cfgB.segInit) (b2 : cfgB.privExt = false) (b3 : 0 < cfgB.segMru)
+    (hwf : ∀ pre, pre <+: sch → SysWF (runSys (initSys cfgA cfgB) pre))
+    (hs : ∀ ev ∈ sch, ev.sendOK) :
+    let s := runSys (initSys cfgA cfgB) sch
+    (∀ t ∈ s.a.successLog, ∃ d, (t, d) ∈ s.b.rxLog ∧ (⟨t, d⟩ : TxItem) ∈ s.a.sendLog)
+    ∧ (∀ t ∈ s.b.successLog, ∃ d, (t, d) ∈ s.a.rxLog ∧ (⟨t, d⟩ : TxItem) ∈ s.b.sendLog) := by
+  intro s
+  have hi : SysInv s := sysInv_run sch _ (sysInv_init cfgA cfgB a1 a2 a3 b1 b2 b3) hwf hs
+  have hw : SysWF s := hwf sch (List.prefix_refl _)
+  obtain ⟨tB, tA⟩ := transport s hi hw
+  obtain ⟨pB, pA⟩ := C01_prefix_ids cfgA cfgB sch a1 a2 a3 b1 b2 b3 hwf hs
+  obtain ⟨sa, sb⟩ := sys_lift_init SuccInv succInv_step succInv_init cfgA cfgB sch
+  obtain ⟨ka, kb⟩ := sys_lift_init AckInv ackInv_step ackInv_init cfgA cfgB sch
+  have one : ∀ (w r : Ep), SuccInv w → AckInv r → w.processed <+: r.emitted →
+      r.rxLog <+: w.sendLog.map (fun it => (it.tid, it.data)) →
+      ∀ t ∈ w.successLog, ∃ d, (t, d) ∈ r.rxLog ∧ (⟨t, d⟩ : TxItem) ∈ w.sendLog := by
+    intro w r hs' hk ht hp t htm
+    obtain ⟨f, l, hend, hmem⟩ := hs' t htm
+    obtain ⟨d, hd, _⟩ := hk _ (ht.subset hmem) hend
+    refine ⟨d, hd, ?_⟩
+    have := hp.subset hd
+    simp only [List.mem_map] at this
+    obtain ⟨it, hit, heq⟩ := this
+    cases it
+    simp only [Prod.mk.injEq] at heq
+    obtain ⟨rfl, rfl⟩ := heq
+    exact hit
+  exact ⟨one s.a s.b sa kb tA pB, one s.b s.a sb ka tB pA⟩
 
 /-! ### non-vacuity: a concrete two-endpoint run meeting every hypothesis and delivering a bundle -/
 
